@@ -486,13 +486,7 @@ impl CertificateParams {
 
 		// "When present, conforming CAs SHOULD mark this extension as critical."
 		write_x509_extension(writer, oid::KEY_USAGE, true, |writer| {
-			// u16 is large enough to encode the largest possible key usage (two-bytes)
-			let bit_string = self.key_usages.iter().fold(0u16, |bit_string, key_usage| {
-				bit_string | key_usage.to_u16()
-			});
-			// DER encodes a named bit list without its trailing zero bits
-			let bits = (u16::BITS - bit_string.trailing_zeros()) as usize;
-			writer.write_bitvec_bytes(&bit_string.to_be_bytes()[..(bits + 7) / 8], bits);
+			write_key_usage_bits(&self.key_usages, writer)
 		});
 	}
 
@@ -900,6 +894,17 @@ impl AsRef<CertificateParams> for CertificateParams {
 	fn as_ref(&self) -> &CertificateParams {
 		self
 	}
+}
+
+/// Write the KeyUsage BIT STRING for the given usages.
+pub(crate) fn write_key_usage_bits(key_usages: &[KeyUsagePurpose], writer: DERWriter) {
+	// u16 is large enough to encode the largest possible key usage (two-bytes)
+	let bit_string = key_usages
+		.iter()
+		.fold(0u16, |bit_string, key_usage| bit_string | key_usage.to_u16());
+	// DER encodes a named bit list without its trailing zero bits
+	let bits = (u16::BITS - bit_string.trailing_zeros()) as usize;
+	writer.write_bitvec_bytes(&bit_string.to_be_bytes()[..(bits + 7) / 8], bits);
 }
 
 fn write_general_subtrees(writer: DERWriter, tag: u64, general_subtrees: &[GeneralSubtree]) {
